@@ -89,6 +89,7 @@ var (
 	ErrEmptyWorkloadID             = errors.New("workload ID is empty")
 	ErrEmptyEntrypointName         = errors.New("entrypoint name is empty")
 	ErrUnderlineInEntrypointName   = errors.New("entrypoint name has '_' character")
+	ErrNameIsNotAPathElement       = errors.New("name has '/' character or is '.' or '..'")
 	ErrEmptyRawEngineOp            = errors.New("raw engine op is empty")
 
 	// Store
